@@ -6,7 +6,7 @@ def plan(tier):
     return dict(queries=qs, level='model_checking', pre=[pre_layout],
                 functions=['all public CTR functions of the three ciphers through the dispatchers (generic back end) and the entry points of every vector back end (clang IR)',
                            'all public parallel-ECB functions (driver files), back end chosen symbolically', 'skinny_cleanse'],
-                bounds={'histories': 'a fixed list of operation sequences of up to 10 calls over one or two objects per object kind and back end (quick: 8 CTR + 7 parallel sequences; thorough: 19 + 15), data symbolic',
+                bounds={'histories': 'a fixed list of operation sequences of up to 10 calls over one or two objects per object kind and back end (quick: 8 CTR + 7 parallel sequences; thorough: 19 + 15), data concrete (control flow and addresses do not depend on data: C08), back end of parallel objects symbolic',
                         'checked per sequence': 'return values, no leak at the end, no double/foreign free, freed blocks zero, handle cleared by cleanup'},
                 outside=['sequences not in the list; arbitrary-length histories are approached from the other side by the one-step obligations from arbitrary states in C05/C14/C16/C17'],
                 assumptions=BASE_ASSUMPTIONS + ['calloc/free inside the library units renamed (macro / ll2c rename, no source change) to tracking wrappers around CBMC\'s allocator model',
